@@ -196,7 +196,10 @@ Definition has_slash (l : list Z) : bool := existsb (Z.eqb 47) l.
 Definition rr_name_ok (rr : list Z) : bool := nonempty rr && negb (has_slash rr).
 (* _add_child: `self.rock_ridge is not None and self.file_identifier() == b'RR_MOVED'` *)
 Definition RR_MOVED : ident := [82; 82; 95; 77; 79; 86; 69; 68].
-Definition dup_allowed (isroot : bool) (m : meta) : bool := negb isroot && bytes_eqb (m_name m) RR_MOVED.
+(* before the repair a NEW entry could duplicate a name inside a directory called RR_MOVED ([dup_allowed_old]); now
+   `check_overflow or not (...)`: only a parsed image may hold equal names there, new entries are refused as anywhere *)
+Definition dup_allowed_old (isroot : bool) (m : meta) : bool := negb isroot && bytes_eqb (m_name m) RR_MOVED.
+Definition dup_allowed (isroot : bool) (m : meta) : bool := false.
 Definition plain_name (nm : ident) : bool :=
   nonempty nm && forallb (fun c => (2 <=? c) && (c <=? 255) && negb (c =? 47)) nm.
 Definition rr_too_deep (parent : path) : bool := Z.of_nat (length parent) + 1 >? 7.
